@@ -57,6 +57,7 @@ fn verifier_exact(seed: u64, tier: Tier) {
     let mut n_acc = 0;
     let st = explore(DrawMode::NonDegenerate, seed, d, 600, &["verify"], |p| {
         let s = rc_setup(seed, 123456789);
+        eng::set_cex_unknowns(&s.at.iter().filter(|a| !a.path.ends_with(".commitment") && !a.path.ends_with("sigma1")).map(|a| a.term()).chain(std::iter::once(s.expected.term())).chain(std::iter::once(s.c.to_scalar().term())).collect::<Vec<_>>());
         let rc: RangeConstraint = match decode(&s.bytes) {
             Some(x) => x,
             None => return,
